@@ -308,6 +308,33 @@ theorem wrapper_const (c : Resp α) (args : List (Arg φ)) (kw : KwArgs φ) :
   by_cases hp : 1 < args.length <;> simp [hp] <;> first | rfl | (cases kwGet "freq" kw <;> rfl)
 
 
+theorem kwGetAll_length (kw : KwArgs φ) : ∀ (ps : List String) (vs : List (Arg φ)),
+    kwGetAll kw ps = some vs → vs.length = ps.length := by
+  intro ps
+  induction ps with
+  | nil => intro vs h; simp [kwGetAll] at h; simp [← h]
+  | cons p r ih =>
+    intro vs h
+    unfold kwGetAll at h
+    cases h1 : kwGet p kw <;> cases h2 : kwGetAll kw r <;> simp [h1, h2] at h
+    rw [← h, List.length_cons, ih _ h2, List.length_cons]
+
+/-- a bound call has one value per parameter -/
+theorem bindParams_length (ps : List String) (args : List (Arg φ)) (kw : KwArgs φ) (vs : List (Arg φ))
+    (h : bindParams ps args kw = some vs) : vs.length = ps.length := by
+  unfold bindParams at h
+  by_cases h1 : ps.length < args.length
+  · simp [h1] at h
+  · rw [if_neg h1] at h
+    split at h
+    · simp at h
+    · cases h3 : kwGetAll kw (ps.drop args.length) with
+      | none => simp [h3] at h
+      | some ws =>
+        simp [h3] at h
+        rw [← h, List.length_append, kwGetAll_length kw _ _ h3, List.length_drop]
+        omega
+
 /-! ### what the broadcast delivers -/
 
 /-- an element that is a number (`some f`) or not (`none`: None, a str) -/
